@@ -4,6 +4,7 @@ Scipy sparse linear solver with SuperLU backend.
 
 import numpy as np
 
+from kvxopt import matrix
 from scipy.sparse import csc_matrix
 from scipy.sparse.linalg import spsolve, splu
 
@@ -71,6 +72,14 @@ class SpSolve(SciPySolver):
         """
 
         A_csc = spmatrix_to_csc(A)
+
+        # several right-hand sides given as a dense ``kvxopt.matrix`` are
+        # solved in place, as the SuiteSparse solvers do
+        if isinstance(b, matrix) and b.size[1] > 1:
+            x = np.reshape(spsolve(A_csc, np.array(b)), b.size)
+            b[:, :] = matrix(x)
+            return np.ravel(x)
+
         b = np.ravel(b)
         return spsolve(A_csc, b)
 
